@@ -1,6 +1,6 @@
 (* C18 - Applying defaults fills exactly the absent members that have a default. *)
 From Coq Require Import List ZArith Bool.
-From Verif Require Import Base.Sx Base.GoVal Schema.Ast Schema.Pipeline Schema.Post Schema.PostFacts.
+From Verif Require Import Base.Sx Base.GoVal Schema.Ast Schema.Pipeline Schema.Post Schema.PostFacts Schema.PostTree.
 Import ListNotations.
 Open Scope Z_scope.
 
@@ -45,3 +45,26 @@ Theorem C18_schemata_survive_merge_for_slice : forall r sl i o e,
   In e (r_fields r) \/ In e (r_fields o) -> In e (r_fields (merge_for_slice r sl i o)).
 Proof. exact merge_for_slice_fields. Qed.
 Print Assumptions C18_schemata_survive_merge_for_slice.
+
+(* the same holds at every nesting level, with no bound on depth (the fuel of the model is never the reason for an
+   answer): every object of the instance gets exactly its added members, every present member is processed in turn *)
+Theorem C18_defaults_at_every_level : forall r id m,
+  apply_defaults r (VObj id m) =
+  VObj id (map (fun kv => (fst kv, apply_defaults r (snd kv))) m ++ added_members r id m).
+Proof. exact apply_defaults_obj_eq. Qed.
+Print Assumptions C18_defaults_at_every_level.
+
+Theorem C18_defaults_array_elementwise : forall r sl l,
+  apply_defaults r (VArr sl l) = VArr sl (map (apply_defaults r) l).
+Proof. exact apply_defaults_arr_eq. Qed.
+Print Assumptions C18_defaults_array_elementwise.
+
+Theorem C18_defaults_leave_scalars : forall r v, is_container v = false -> apply_defaults r v = v.
+Proof. exact apply_defaults_scalar_eq. Qed.
+Print Assumptions C18_defaults_leave_scalars.
+
+(* nothing present is removed, renamed, reordered or overwritten anywhere in the tree: the instance is the result
+   with appended members taken away *)
+Theorem C18_defaults_only_append_members : forall r d, ext_keys d (apply_defaults r d).
+Proof. exact apply_defaults_ext_keys. Qed.
+Print Assumptions C18_defaults_only_append_members.
